@@ -17,40 +17,43 @@ import (
 )
 
 type Exec struct {
-	eng      *Engine
-	vc       *VC
-	top      *ssa.Function
-	topC     *Contract
-	stack    []*ssa.Function
-	maxDepth int
-	trace    *Trace
+	eng         *Engine
+	vc          *VC
+	top         *ssa.Function
+	topC        *Contract
+	stack       []*ssa.Function
+	maxDepth    int
+	trace       *Trace
 	checkPanics bool
 	nPanicObl   int
 	nonNil      map[string]bool // reference terms known to be non-zero on every path
+	curFrame    *frame
+	over        map[string]stdModel // per-run model overrides (mode A abstractions)
+	opaque      map[string]bool     // callees never inlined: result havocked, no write to existing memory
 }
 
 // frame is one activation (top-level or inlined).
 type frame struct {
-	fn       *ssa.Function
-	c        *Contract
-	vals     map[ssa.Value]Val
-	reachIn  map[*ssa.BasicBlock]string
-	reachOut map[*ssa.BasicBlock]string
-	stOut    map[*ssa.BasicBlock]State
-	rets     []retSite
-	defers   []deferred
-	loops    map[*ssa.BasicBlock]*loopInfo
-	depth    int
-	entrySt  State
+	fn        *ssa.Function
+	c         *Contract
+	vals      map[ssa.Value]Val
+	reachIn   map[*ssa.BasicBlock]string
+	reachOut  map[*ssa.BasicBlock]string
+	stOut     map[*ssa.BasicBlock]State
+	rets      []retSite
+	defers    []deferred
+	loops     map[*ssa.BasicBlock]*loopInfo
+	depth     int
+	entrySt   State
 	entryVals []Val // entry values of params (receiver first)
-	dbg      map[string][]dbgRef
-	top      bool
+	dbg       map[string][]dbgRef
+	top       bool
 }
 
 type dbgRef struct {
-	blk *ssa.BasicBlock
-	idx int
-	val ssa.Value
+	blk    *ssa.BasicBlock
+	idx    int
+	val    ssa.Value
 	isAddr bool
 }
 
@@ -59,6 +62,7 @@ type retSite struct {
 	vals  []Val
 	st    State
 	pos   token.Pos
+	mark  int
 }
 
 type deferred struct {
